@@ -130,10 +130,10 @@ Section Rel.
         destruct (nsig cs h m) as [sg|e], (nsig cs' h' m) as [sg'|e']; try contradiction; cbn [bind]; [|subst; reflexivity].
         destruct Hsig as [Et [Ei Fa]]. rewrite Et, Ei.
         assert (ET : (match sg_task sg' with
-                      | Some t => do r <- hv H cs h look f (m :: st) (VRef t); Ok (TASK_ID :: fst r, snd r)
+                      | Some t => do r <- hv H cs h look f (m :: st) (VRef t); Ok (tmark (m :: st) t (fst r), snd r)
                       | None => Ok ([], 0) end)
                    = (match sg_task sg' with
-                      | Some t => do r <- hv H cs' h' look f (m :: st) (VRef t); Ok (TASK_ID :: fst r, snd r)
+                      | Some t => do r <- hv H cs' h' look f (m :: st) (VRef t); Ok (tmark (m :: st) t (fst r), snd r)
                       | None => Ok ([], 0) end)).
         { destruct (sg_task sg'); [|reflexivity]. rewrite (IH (m :: st) _ _ (vp_refl _)). reflexivity. }
         rewrite ET.
@@ -260,10 +260,10 @@ Proof.
   destruct (nsig cs h m) as [sg|e], (nsig cs h' m) as [sg'|e']; try contradiction; cbn [bind]; [|subst; reflexivity].
   destruct Sm as [Et [Ei Fa]]. rewrite Et, Ei.
   assert (ET : (match sg_task sg' with
-                | Some t => do r <- hv H cs h look fuel [m] (VRef t); Ok (TASK_ID :: fst r, snd r)
+                | Some t => do r <- hv H cs h look fuel [m] (VRef t); Ok (tmark [m] t (fst r), snd r)
                 | None => Ok ([], 0) end)
              = (match sg_task sg' with
-                | Some t => do r <- hv H cs h' look fuel [m] (VRef t); Ok (TASK_ID :: fst r, snd r)
+                | Some t => do r <- hv H cs h' look fuel [m] (VRef t); Ok (tmark [m] t (fst r), snd r)
                 | None => Ok ([], 0) end)).
   { destruct (sg_task sg'); [|reflexivity]. rewrite (hv_rel H cs cs h h' look Hm S fuel [m] _ _ (vp_refl _)). reflexivity. }
   rewrite ET.
